@@ -18,7 +18,8 @@ PROP = {
     ],
     "assumptions": [
         "run() is only called with event ids >= 1 (id 0 is documented as 'any event, only for addRoute/addEvent')",
-        "handlers return -1 or an existing state / 0; at most one handler per (state, event); nested machines can always start (valid initial state); one sub-machine object per state",
+        "handlers return -1 or an existing state / 0; nested machines can always start (valid initial state); a sub-machine object is attached to at most one state at a time",
+        "re-definition follows the unmodified code where it is unambiguous: addEvent() again for a (state, event) replaces the handler (last one counts, specific and any-event alike), newState() of an existing id is refused and changes nothing, setInitState() again: last call counts, setSubStateMachine() on a state that has one replaces it, duplicate routes are both kept (first match wins)",
         "the call sequence is applied to the top machine only; re-entrant calls are made by a machine's callbacks on that same machine",
         "definition calls (newState/addRoute/addEvent/setInitState/setSubStateMachine) are issued in generated order, interleaved, also between two lives (stop(); define; start()), but only while the top machine is stopped; a nested machine is attached only once it can start and keeps a valid initial state",
         "left free: guard evaluations of routes registered after the route taken, lastState() between stop/restart and the next transition, nextState() outside enter/exit/route actions, the Event given to enter/exit actions of a nested machine started/stopped by its parent",
